@@ -269,6 +269,7 @@ def cases(tier):
     for k in ("lastseen", "group-info", "picture-get", "media-upload", "groups-list"):
         cs.append(dict(name="out-answered-during-send[%s]" % k, fn=h_outgoing_sync_reply, args=(k,), max_paths=2000))
     for enctype in ("pkmsg", "msg", "skmsg", "pkmsg+skmsg"):
-        for payload in ("text", "extended-text"):
+        # "+key-distribution": the answer to a group retry request carries the sender key merged into the original message
+        for payload in ("text", "extended-text", "text+key-distribution", "extended-text+key-distribution"):
             cs.append(dict(name="in-encrypted[%s,%s]" % (enctype, payload), fn=h_incoming_encrypted, args=(enctype, payload), max_paths=2000))
     return cs
